@@ -30,6 +30,18 @@ CHECKS = {
     text="total enumeration of all byte strings of length 0..3 (and all 2^32 of length 4 in the thorough tier), stratified 4/5-byte strings, all integers in [-2^16, 2^16] and around every power of two: decode value, minimality verdict, re-encoding, round trip and the debugger's decimal/hex conversions are compared with the arithmetic definition",
     note="oracle is the arithmetic definition in ref/refnum.hpp",
     tech="total enumeration of the codec domain"),
+ "C03": dict(engine="mc_spend", cat=MC, design="DESIGN.md §3 C03",
+    text="funding/spending pairs for every supported output type are synthesised and signed by the independent reference signer; for every input position, referenced output, selection, every single-item deviation of the satisfaction and every single non-activation flag toggle, the real configure_tx_txin + step() session is run in lock-step with the reference session plan (input, amount, sigversion, scripts per phase, initial stack, every micro-step) and its validity verdict is compared with the reference VerifyScript; refusals are demanded where the property demands them",
+    note="trusted: reference model (verify_input, session plan) self-tested on six real-chain spends; taproot restricted to single-input spends; activation flags P2SH/WITNESS/TAPROOT never removed (stated in evidence)",
+    tech="deviation-bounded exhaustive enumeration of spends, each session explored step by step against a reference model"),
+ "C05": dict(engine="mc_spend", cat=MC, design="DESIGN.md §3 C05",
+    text="TaprootCommitmentEnv is driven directly over every path length (0..128 in the thorough tier), leaf versions, node orderings below/above/equal, both parities and every single-field corruption of valid commitments; after every Iterate() the running hash is compared with the BIP341 branch hash and the final state with the BIP341 verdict; the same phase is checked through configure_tx_txin + step() including the hand-over of the leaf hash",
+    note="oracle: BIP341 rule implemented on OpenSSL EC arithmetic in ref/refcodec.hpp",
+    tech="exhaustive enumeration of commitment triples and their single-field corruptions, stepwise comparison with a reference model"),
+ "C06": dict(engine="c06_tap", cat=MC, design="DESIGN.md §3 C06",
+    text="the real tap binary is run for every (n, index) with n up to 24 (quick) / 64 (thorough) plus large n, three script-content patterns, three internal keys and all address prefixes; the printed address, control block and script are verified under BIP341 by an independent pure-Python reference and by the real btcdeb commitment check, the reported sighash is compared with the reference BIP341/342 digest, and signatures made over it are passed back with --sig and validated end to end",
+    note="trusted: drivers/pyref.py (self-tested on BIP340/341/350 vectors and the real-chain taproot spends before every run); single-input spends, hash type 0x00",
+    tech="exhaustive enumeration of (key, script list, n, index) against the real binary with an independent reference verifier"),
 }
 
 REASON_PENDING = "check under construction in this round; not claimed until its engine has run end-to-end"
